@@ -588,6 +588,42 @@ func genSched(seed uint64, prop, tier, mode string) *Plan {
 		p.Clients = append(p.Clients, ops)
 	}
 
+	// ---- rarely taken paths in parallel: for a few lints, objects on which that lint has a
+	// finding are handed to different clients (appended: the draws above stay as they were)
+	{
+		cidx := corpusClassIndex()
+		byLint := map[string][]int{}
+		for i := range cidx {
+			for _, n := range cidx[i].Find {
+				byLint[n] = append(byLint[n], i)
+			}
+		}
+		lints := sortedKeys(byLint)
+		nT := g.Range(1, 3)
+		if race {
+			nT = g.Range(3, 8)
+		}
+		for t := 0; t < nT && len(lints) > 0; t++ {
+			L := pick(g, lints)
+			objs := byLint[L]
+			k := len(objs)
+			if k > 4 {
+				k = 4
+			}
+			for j, oi := range g.subset(len(objs), k) {
+				o := loadCorpusFile(cidx[objs[oi]].File)
+				if o == nil {
+					continue
+				}
+				c := (g.Intn(K) + j) % K
+				p.Objects = append(p.Objects, *o)
+				pos := g.Intn(len(p.Clients[c]) + 1)
+				op := Op{K: "lint", Obj: len(p.Objects) - 1, Reg: 0, Note: "finding:" + L}
+				p.Clients[c] = append(p.Clients[c][:pos], append([]Op{op}, p.Clients[c][pos:]...)...)
+			}
+		}
+	}
+
 	// ---- schedule
 	sc := &Schedule{Seed: g.U64()}
 	switch g.weighted([]int{2, 4, 4, 5}) {
